@@ -15,6 +15,7 @@ INT_RANGE = {
 MODELS = {}
 MODEL_PATTERNS = []
 EXTERNAL_CRATES = {'std', 'core', 'alloc', 'url', 'debversion', 'chrono', 'regex', 'rowan', 'serde', 'pyo3', 'lazy_regex'}
+BARE_VARIANTS = {'Less': 'Ordering', 'Equal': 'Ordering', 'Greater': 'Ordering', 'None': 'Option', 'Some': 'Option', 'Ok': 'Result', 'Err': 'Result'}
 DERIVE_TRAITS = {'FromDeb822': 'FromDeb822Paragraph', 'ToDeb822': 'ToDeb822Paragraph'}
 
 
@@ -849,6 +850,9 @@ class Engine:
         if k == 'variant':
             path = strip_generics(rv[1]); segs = path.split('::')
             vals = [self.operand(fr, o) for o in rv[2]]
+            if len(segs) == 1 and segs[0] in BARE_VARIANTS:
+                # a bare std variant: the enum is told by the destination's declared type when ambiguous (Equal: Ordering)
+                return EnumV(BARE_VARIANTS[segs[0]], segs[0], vals)
             if len(segs) >= 2:
                 ek = self.enum_key('::'.join(segs[:-1]), fr.fn.crate)
                 if ek is not None and self.has_variant(ek, segs[-1]): return EnumV(ek, segs[-1], vals)
